@@ -2,6 +2,7 @@ package main
 
 import (
 	"errors"
+	"math"
 	"fmt"
 	"math/rand"
 	"os"
@@ -89,8 +90,11 @@ func genC18(dir, tier string, seed int64) {
 		nStruct, nMut, nRand = 20000, 500000, 120000
 	}
 	cw := newCaseWriter(dir, "C18_load", hdr, ftr,
-		"generated model structures: 0..3 initializers (C12's generator: 11 types, typed or raw, rank 0..3; 1 model in 3 carries one malformed initializer: extra/zero/negative dim, truncated raw data, unsupported type) x opset import lists ([13], [12], [14], [], [0], [-5], [13,1], [1,13], [13,14], [13,13], [9,11,13], [2^40], random 1..3 versions in -2..20 over several domains), marshalled and loaded with NewModelFromBytes", false, 250)
-	opsetLists := [][]int64{{13}, {12}, {14}, {}, {0}, {-5}, {13, 1}, {1, 13}, {13, 14}, {13, 13}, {9, 11, 13}, {1 << 40}, {13}, {13}, {13}}
+		"generated model structures: 0..3 initializers (C12's generator: 11 types, typed or raw, rank 0..3; 1 model in 3 carries one malformed initializer: extra/zero/negative dim, truncated raw data, unsupported type) x opset import lists ([13], [12], [14], [], [0], [-5], [13,1], [1,13], [13,14], [13,13], [9,11,13], [2^40], lists with the int64 extremes and versions more than 2^63 apart, random 1..3 versions in -2..20 over several domains), marshalled and loaded with NewModelFromBytes", false, 250)
+	opsetLists := [][]int64{{13}, {12}, {14}, {}, {0}, {-5}, {13, 1}, {1, 13}, {13, 14}, {13, 13}, {9, 11, 13}, {1 << 40}, {13}, {13}, {13},
+		// versions far apart (a difference that does not fit 64 bits), extremes, the supported one last / first / in the middle
+		{math.MaxInt64, -2, 13}, {-2, math.MaxInt64, 13}, {1 << 62, -(1 << 62) - 1, 13}, {13, math.MaxInt64}, {math.MinInt64, 13}, {13, math.MinInt64, 13},
+		{math.MaxInt64}, {math.MinInt64}, {13, -1 << 63, 1 << 62}, {14, 13}, {13, 12, 14, 13}}
 	for i := 0; i < nStruct; i++ {
 		var inits []*onnx.TensorProto
 		nI := r.Intn(4)
